@@ -35,3 +35,7 @@ def fill(chk, NA):
         'explicit-state BFS over all well-nested write histories of the real X12Writer to 8 (quick) / 12 (thorough) writes across 12 delimiter/eol/version settings plus 32 caller-delimiter settings; every state is also closed and re-read by the real X12Reader; every emitted text is compared with an independent list model; plus every prefix of regular multi-interchange documents',
         'trusted: the list model and expected-text formatter in mc/c11.py, ref.recount/ref.nests and the merge key (all writer attributes except the sink); the re-read leg relies on X12Reader, which C04 checks',
         'explicit-state breadth-first search of the real writer paired with a reference model', 'E2', 'DESIGN.md 3/C11')
+    chk('C20', 'model_checking',
+        'every combination of 42 documents (hand-built minimal interchanges and all suite sources, as shipped and count-clean) x 4 layouts x up to 5 delimiter triples x every single and pairwise IEA01/GE01/SE01/HL01 defect (plus HL shifts, reversals, swaps) x all 12 option combinations is run through the real x12norm.main() by file path; each output is compared with an independent tokenizer and recount for content preservation, one-segment-per-line layout, byte-for-byte idempotence and count repair',
+        'trusted: mc/ref.py (tokenizer, nesting, recount) and the truth() count in mc/c20.py; bounded by the document catalogue, not all readable interchanges',
+        'exhaustive bounded enumeration of inputs x defects x option configurations on the real command-line entry point', 'E1', 'DESIGN.md 3/C20')
